@@ -77,6 +77,10 @@ def sig_event(ev, sform="pinned"):
             return ["D", "cancelS"]
         if e == "return":
             return ["D", "return"]
+        if e == "sigmask":
+            # dsh()'s _mask_signals: SIG_BLOCK (0) at its start, SIG_UNBLOCK (1) after the signals thread was stopped;
+            # steps of the wrapper Dsh/SignalsMask.lean.  (SIG_SETMASK: a saved mask restored - told apart by order)
+            return ["D", "mask" if a == "0" else "unmask" if a == "1" else "setmask"]
         if e in ("fwd", "signal"):
             return ["D", e, a]
         return None
@@ -159,12 +163,21 @@ def project_sig(res, variant, wform="blind", sform="pinned"):
     zlist, zcanc, fwds = [], None, []
     zopen = [False]       # Z took thd_mutex for the signal it is handling and `obs list` was not sent yet
 
-    def flush_list():
+    zcopen = [False]      # Z took threadcount_mutex in _cancel_pending_threads and `obs canc` was not sent yet
+
+    def flush_list(final=False):
         # what the listing named is compared when the signals thread is done with the signal (before its next sigwait,
         # its end, the end of the run) - not at the unlock: the lines may be printed from a snapshot after the unlock
         if zopen[0]:
             L.append("obs list " + (",".join(map(str, zlist)) or "-"))
             zopen[0] = False
+        # the same for "Canceled n pending threads.": printed inside the critical section (dsh.c as pinned) or after
+        # threadcount_mutex was released (harmless change C20-H4) - compared when the handler is done.  A run that ends
+        # inside the handler may not have printed it yet
+        if zcopen[0]:
+            if not (final and zcanc is None):
+                L.append("obs canc %s" % ("?" if zcanc is None else zcanc))
+            zcopen[0] = False
     evs = ordered(res)
     for pos, (kind, s, ev) in enumerate(evs):
         th = ev[0]
@@ -194,6 +207,8 @@ def project_sig(res, variant, wform="blind", sform="pinned"):
             L.append("obs gkill")
         if fe is None:
             continue
+        if fe == ["D", "setmask"]:
+            fe = ["D", "unmask" if any(l in ("ev D mask", "ev D unmask") for l in L) else "mask"]
         if fe[0].startswith("W") and fe[1] == "lockT" and stage.get(fe[0]) == "body":
             # the read loop was given up (time-out, read error): the result written under thd_mutex is DSH_FAILED
             nts = next_ts(evs, pos)
@@ -234,11 +249,10 @@ def project_sig(res, variant, wform="blind", sform="pinned"):
                 zopen[0] = True
             elif fe[1] == "lock":
                 zcanc = None
-            elif fe[1] == "unlock":
-                L.append("obs canc %s" % ("?" if zcanc is None else zcanc))
+                zcopen[0] = True
             elif fe[1] == "fwd":
                 fwds.append(fe[2])
-    flush_list()
+    flush_list(final=True)
     L.append("obs fwds " + (",".join(fwds) or "-"))
     status = m.get("status", "crash")
     if status == "deadlock" and res.get("last_S"):
